@@ -175,6 +175,18 @@ func score() int {
 	return total + bar
 }
 
+func score2() int {
+	bar2 := 20
+	bar := baz.Base()
+	return bar*100 + bar2
+}
+
+func score3(table3 int) int {
+	table2 := 3
+	table := 4
+	return table*100 + table2*10 + table3
+}
+
 func labels(xs []int) int {
 	sum := 0
 outer:
@@ -240,6 +252,9 @@ func refScore() int {
 func Check() string {
 	if score() != refScore() {
 		return "score differs"
+	}
+	if score2() != 1020 || score3(5) != 435 {
+		return "score2/score3 differ"
 	}
 	d := []int{1, 2, 3, 99}
 	h := head(d, 2)
@@ -317,6 +332,6 @@ def eng_copydecls(pid, tier, wd, known, replay=None):
     return {"name": "copy-decls", "evaluations": 1 + stats.get("declarations", 0), "distinct_nontrivial": stats.get("declarations", 0), "samples": [{"corpus": "cp/wire.go", "functions": ["head", "score", "labels", "closures", "variadic"]}],
             "traces": 1, "stats": stats,
             "rule": "an injector file holding one declaration per construct (types with tags and doc comments, alias, iota constants, composite literals, 3-index slice, labels/goto/break/continue, "
-                    "closures, defer/recover, type switch, select, if with init, methods, a local that collides with the generated import name next to its numbered sibling) through wire gen; "
+                    "closures, defer/recover, type switch, select, if with init, methods, locals that collide with the generated import name or a package-level name, next to numbered siblings declared before and after them) through wire gen; "
                     "copied declarations compared structurally with the source and by behaviour against reference copies",
             "violations": viol, "known": []}
